@@ -2,7 +2,7 @@
 //! failure-free run, then one run per I/O call index k (and fault kind) with a fault at k. The
 //! program is not stopped at the first error: later calls, finish and Drop are still executed.
 
-use super::chunk::{read_outcome, stream_outcome, EntryOut};
+use super::chunk::{read_outcome, stream_outcome, visit_outcome, EntryOut};
 use super::common::*;
 use super::prog::exec_full;
 use crate::indep::build::{build, Enc};
@@ -22,6 +22,8 @@ pub enum Kind {
     Reader,
     /// front-to-back through the streaming reader
     Stream,
+    /// front-to-back through ZipStreamReader::visit (files, then the central directory's metadata)
+    Visit,
 }
 
 #[derive(Serialize, Deserialize, Clone, Debug, PartialEq)]
@@ -183,7 +185,7 @@ impl Scenario for IoFault {
         let s = mix(mix(seed, fnv(b"iofault")), idx);
         let mut r = Rng::derive(s, "workload");
         let mut rs = Rng::derive(s, "swarm");
-        let kind = rs.weighted(&[(5, 0u8), (4, 1), (2, 2)]);
+        let kind = rs.weighted(&[(10, 0u8), (8, 1), (3, 2), (3, 3)]);
         let mut sources = vec![];
         let mut base = None;
         let max_content = *rs.pick(&[16u64, 300, 4096, 40_000]);
@@ -242,13 +244,13 @@ impl Scenario for IoFault {
                         if !matches!(e.method, 0 | 8 | 12 | 93) {
                             e.method = 8;
                         }
-                        if k == 2 {
+                        if k >= 2 {
                             e.dd = 0;
                         }
                     }
                     Source::Built(l)
                 };
-                (if k == 1 { Kind::Reader } else { Kind::Stream }, src)
+                (match k { 1 => Kind::Reader, 2 => Kind::Stream, _ => Kind::Visit }, src)
             }
         };
         let all = [Decision::Fail(EK::Other), Decision::Sticky(EK::StorageFull), Decision::Eintr, Decision::ZeroWrite, Decision::EofEarly, Decision::Fail(EK::UnexpectedEof)];
@@ -402,7 +404,7 @@ impl Scenario for IoFault {
                 }
                 Verdict::Pass
             }
-            Kind::Reader | Kind::Stream => {
+            Kind::Reader | Kind::Stream | Kind::Visit => {
                 let (store0, passwords): (Shared, Vec<Option<Vec<u8>>>) = match &c.src {
                     Source::Prog(ops) => {
                         let store = shared_empty();
@@ -429,8 +431,11 @@ impl Scenario for IoFault {
                 };
                 let pw = |i: usize| passwords.get(i).cloned().flatten();
                 let stream = c.kind == Kind::Stream;
+                let visit = c.kind == Kind::Visit;
                 let run_one = |pol: &Policy, io: &mut Option<IoH>| -> Result<Vec<EntryOut>, String> {
-                    if stream {
+                    if visit {
+                        Ok(visit_outcome(&store0, pol, &c.bufs, io))
+                    } else if stream {
                         Ok(stream_outcome(&store0, pol, &c.bufs, io))
                     } else {
                         read_outcome(&store0, pol, &c.bufs, &pw, io)
@@ -445,7 +450,19 @@ impl Scenario for IoFault {
                     let disk = SimDisk::new(store0.clone(), pol.clone());
                     let io = disk.io.clone();
                     set_record(&io, true);
-                    if stream {
+                    if visit {
+                        struct Nop<'a>(&'a [u32]);
+                        impl zip::unstable::stream::ZipStreamVisitor for Nop<'_> {
+                            fn visit_file(&mut self, f: &mut zip::read::ZipFile<'_>) -> zip::result::ZipResult<()> {
+                                let _ = read_all(f, self.0, 1 << 30);
+                                Ok(())
+                            }
+                            fn visit_additional_metadata(&mut self, _m: &zip::unstable::stream::ZipStreamFileMetadata) -> zip::result::ZipResult<()> {
+                                Ok(())
+                            }
+                        }
+                        let _ = zip::unstable::stream::ZipStreamReader::new(SimStream { inner: disk }).visit(&mut Nop(&c.bufs));
+                    } else if stream {
                         let mut st = SimStream { inner: disk };
                         let mut out = vec![];
                         loop {
